@@ -28,7 +28,25 @@ def tcomp : TComp :=
 def fixCrit (s : String) : String :=
   joinWith "\n" ((s.splitOn "\n").map fun l => l.replace " ret crit " " crit ")
 
+/-- the model compares one parameter that stands for all compared settings; each program uses one alternative
+setting (`alt=k` in the header) next to the base, so a mismatch is always about that setting -/
+def errName (alt : Nat) : String :=
+  match alt with
+  | 4 => "IncompatibleMaxBorrowedSamplesPerChannelSetting"
+  | 5 => "IncompatibleOverflowSetting"
+  | 6 => "IncompatibleNumberOfSamples"
+  | 7 => "IncompatibleNumberOfSegments"
+  | 8 => "IncompatibleNumberOfChannels"
+  | _ => "IncompatibleBufferSize"
+
 def comp : Comp :=
   let c := mkComp tcomp
-  { σ := c.σ, init := c.init, step := fun st t => let (st', out) := c.step st t; (st', fixCrit out) }
+  { σ := c.σ × Nat, init := (c.init, 3),
+    step := fun st t =>
+      let alt := match t with
+        | "prog" :: _ => hget ((parseProg (joinWith " " t)).header) "alt"
+        | _ => st.2
+      let alt := if alt = 0 then 3 else alt
+      let (st', out) := c.step st.1 t
+      ((st', alt), (fixCrit out).replace "err:IncompatibleBufferSize" ("err:" ++ errName alt)) }
 end Driver.ConnT
